@@ -30,7 +30,7 @@ const struct forest *iterator_templ__F(struct iterator_templ *self) __CPROVER_re
 _Bool g_sets;                          /* set forest (first_pri is only used on relations) */
 _Bool iterator_templ__isForSets(const struct iterator_templ *self) __CPROVER_requires(1) __CPROVER_assigns() __CPROVER_ensures(__CPROVER_return_value == g_sets);
 #define RECORDS_THE_STEP_BELOW __CPROVER_requires(1) __CPROVER_assigns(g_rec_calls, g_rec_k, g_rec_p) \
-    __CPROVER_ensures(g_rec_calls == __CPROVER_old(g_rec_calls) + 1 && g_rec_k == k && g_rec_p == p && __CPROVER_return_value == ((g_U == NULL) ? g_rec_ret : (p == g_ok_child)))
+    __CPROVER_ensures(g_rec_calls == __CPROVER_old(g_rec_calls) + 1 && g_rec_k == k && g_rec_p == p && __CPROVER_return_value == ((g_U == NULL && g_Uf == NULL) ? g_rec_ret : (p == g_ok_child)))
 _Bool verif_first_unpr_below(struct iterator_templ *self, unsigned k, node_handle p) RECORDS_THE_STEP_BELOW;
 #ifndef JOB_UNPR
 _Bool iterator_templ__first_unpr(struct iterator_templ *self, unsigned k, node_handle p) RECORDS_THE_STEP_BELOW;
@@ -101,24 +101,34 @@ void iterator_templ__M_setTerm_ev(const struct iterator_templ *self, const struc
 #ifdef JOB_UNPR
 _Bool iterator_templ__first_pri(struct iterator_templ *self, unsigned k, node_handle p)
 __CPROVER_requires(1) __CPROVER_assigns(g_pri_calls, g_pri_k, g_pri_p)
-__CPROVER_ensures(g_pri_calls == __CPROVER_old(g_pri_calls) + 1 && g_pri_k == k && g_pri_p == p && __CPROVER_return_value == g_pri_ret);
+__CPROVER_ensures(g_pri_calls == __CPROVER_old(g_pri_calls) + 1 && g_pri_k == k && g_pri_p == p && __CPROVER_return_value == ((g_Uf == NULL) ? g_pri_ret : (p == g_ok_child)));
 
 #define U_AT_LEVEL ((int)k == g_plvl)
 #define U_NEXT     (U_AT_LEVEL ? g_down : p)
 _Bool iterator_templ__first_unpr(struct iterator_templ *self, unsigned k, node_handle p)
 __CPROVER_requires(self != NULL && k == g_k && p == g_p && k <= (1u << 30) && verif_exc == 0)
-__CPROVER_requires(g_Uf == NULL)                                    /* the mask fixes x_k */
-__CPROVER_requires(g_mask_from >= 0)
+__CPROVER_requires(g_Uf == NULL || (__CPROVER_is_fresh(g_Uf, 1) && g_size <= (1u << 20)))    /* g_Uf == NULL: the mask fixes x_k; otherwise x_k is free and g_Uf is its cursor node */
+__CPROVER_requires(g_Uf != NULL || g_mask_from >= 0)
 __CPROVER_requires(g_rec_calls == 0 && g_pri_calls == 0 && g_term_calls == 0)
-__CPROVER_assigns(g_Z, g_rec_calls, g_rec_k, g_rec_p, g_pri_calls, g_pri_k, g_pri_p, g_down_i, g_term_calls)
+__CPROVER_assigns(g_Z, g_Mfrom, g_init_kind, g_init_k, g_init_i, g_init_p, g_rec_calls, g_rec_k, g_rec_p, g_pri_calls, g_pri_k, g_pri_p, g_down_i, g_term_calls)
 ENSURES(nothing_is_raised, verif_exc == 0)
-ENSURES(the_assignment_is_left_alone_at_a_fixed_variable, g_Mfrom == __CPROVER_old(g_Mfrom) && g_Mto == __CPROVER_old(g_Mto) && g_Z == __CPROVER_old(g_Z))
+ENSURES(the_assignment_is_left_alone_at_a_fixed_variable, g_Mto == __CPROVER_old(g_Mto) && (g_Uf != NULL || (g_Mfrom == __CPROVER_old(g_Mfrom) && g_Z == __CPROVER_old(g_Z))))
 ENSURES(the_empty_function_has_no_assignment, p != 0 || (__CPROVER_return_value == 0 && g_rec_calls == 0 && g_pri_calls == 0 && g_term_calls == 0))
 ENSURES(below_the_last_variable_the_value_is_reported_once, !(p != 0 && k == 0) || (__CPROVER_return_value == 1 && g_term_calls == 1 && g_rec_calls == 0 && g_pri_calls == 0))
-ENSURES(a_node_at_the_level_is_read_at_the_fixed_value, !(p != 0 && k != 0 && U_AT_LEVEL) || g_down_i == g_mask_from)
-ENSURES(in_a_set_the_next_unprimed_variable_follows, !(p != 0 && k != 0 && g_sets) ||
+ENSURES(a_node_at_the_level_is_read_at_the_fixed_value, !(p != 0 && k != 0 && g_Uf == NULL && U_AT_LEVEL) || g_down_i == g_mask_from)
+ENSURES(in_a_set_the_next_unprimed_variable_follows, !(p != 0 && k != 0 && g_Uf == NULL && g_sets) ||
         (g_rec_calls == 1 && g_pri_calls == 0 && g_term_calls == 0 && g_rec_k == k - 1 && g_rec_p == U_NEXT && __CPROVER_return_value == g_rec_ret))
-ENSURES(in_a_relation_the_primed_variable_follows, !(p != 0 && k != 0 && !g_sets) ||
+ENSURES(in_a_relation_the_primed_variable_follows, !(p != 0 && k != 0 && g_Uf == NULL && !g_sets) ||
         (g_pri_calls == 1 && g_rec_calls == 0 && g_term_calls == 0 && g_pri_k == k && g_pri_p == U_NEXT && __CPROVER_return_value == g_pri_ret))
+/* ---- x_k is free: the scan over the cursor node ---- */
+#define U_FREE (p != 0 && k != 0 && g_Uf != NULL)
+ENSURES(a_node_at_the_level_is_scanned_itself, !(U_FREE && U_AT_LEVEL) || (g_init_kind == 3 && g_init_p == p))
+ENSURES(a_skipped_unprimed_level_is_scanned_over_every_value, !(U_FREE && !U_AT_LEVEL) || (g_init_kind == 1 && g_init_k == (int)k && g_init_p == p))
+ENSURES(the_scan_stops_at_the_first_entry_with_an_assignment_below_and_reports_its_index, !(U_FREE && g_zs < g_size) ||
+        (__CPROVER_return_value == 1 && g_Z == g_zs && g_Mfrom == g_idx && g_term_calls == 0 &&
+         (g_sets ? (g_rec_calls == g_zs + 1 && g_pri_calls == 0 && g_rec_k == k - 1 && g_rec_p == g_ok_child)
+                 : (g_pri_calls == g_zs + 1 && g_rec_calls == 0 && g_pri_k == k && g_pri_p == g_ok_child))))
+ENSURES(a_scan_that_finds_nothing_has_tried_every_entry, !(U_FREE && g_zs >= g_size) ||
+        (__CPROVER_return_value == 0 && (g_sets ? (g_rec_calls == g_size && g_pri_calls == 0) : (g_pri_calls == g_size && g_rec_calls == 0))))
 ;
 #endif
